@@ -208,7 +208,10 @@ class HydrodynamicsTemplateModel:
 
         """
         # Add 1e-100 to avoid having something like 0/0
-        sign = np.sign((1-3*self.alN)*self.mu-self.nu)*np.sign((1-3*al)*self.mu-self.nu)
+        # The sign must not vanish when the denominator does, otherwise w=0.
+        sign = np.sign((1-3*self.alN)*self.mu-self.nu)*np.where(
+            (1-3*al)*self.mu-self.nu >= 0, 1.0, -1.0
+        )
         return sign*(abs((1 - 3 * self.alN) * self.mu - self.nu) + 1e-100) / (
             abs((1 - 3 * al) * self.mu - self.nu) + 1e-100
         )
@@ -489,8 +492,9 @@ class HydrodynamicsTemplateModel:
                 2*vm*self.nu*(self.mu-1))
             if not np.isnan(vpSignChangeWp):
                 # The sign change can coincide with vpMax up to rounding (it is at
-                # vp = vm when mu = nu, e.g. in the bag model), hence the 1e-10
-                if vpMin < vpSignChangeWp <= vpMax + 1e-10:
+                # vp = vm when mu = nu, e.g. in the bag model). The discriminant then
+                # vanishes, so the rounding error of its root can reach 1e-8.
+                if vpMin < vpSignChangeWp <= vpMax + 1e-8:
                     # Keep the side of the sign change on which wp is positive.
                     # wp is probed in the middle of the upper side, where it is finite.
                     vpAbove = 0.5 * (vpSignChangeWp + vpMax)
@@ -504,7 +508,7 @@ class HydrodynamicsTemplateModel:
                     ):
                         vpMin = vpSignChangeWp+1e-10
                     else:
-                        vpMax = vpSignChangeWp-1e-10
+                        vpMax = min(vpSignChangeWp, vpMax)-1e-10
 
         try:
             sol = root_scalar(
